@@ -43,7 +43,7 @@ def slices(tier):
     if tier == "quick":
         quick_menu = [core[0], core[2], core[4], core[7]]
         return [
-            ("O3x2x3", spaces.shape_pairs(3, 2), o3, quick_menu, False),
+            ("O3x2x3", spaces.shape_pairs(3, 2), o3, quick_menu + [core[6]], False),   # + hgt = 0
             ("R-root3x2x2", spaces.shape_pairs(3, 2, min_obj=2), o2, quick_menu[:2], True),
             # 4 object leaves in a chain on one species, leaves holding subsequences of abc: three nested ancestors, a
             # family carried down past a node none of whose leaves has it
